@@ -206,7 +206,7 @@ theorem handle_facts (v : Variant) (s s' : Subn) (a : Action) (n : Option Nat) (
     | (cases h; done)
     | (cases h; simp; done)
     | (have := enqueue_facts _ _ _ _ h; simpa using this)
-    | (split at h <;> first | (cases h; done) | (have := enqueue_facts _ _ _ _ h; simpa using this))
+    | (split at h <;> first | (cases h; done) | (cases h; simp; done) | (have := enqueue_facts _ _ _ _ h; simpa using this))
 
 /-- the three `let`s at the head of `Subscription::tick` -/
 def elapsedOf (s : Subn) (timer e : Bool) : Bool := timer && (decide (s.state = .creating) || e)
